@@ -44,7 +44,7 @@ def gen_cases(rng, tier):
         if wide:
             data[rng.randrange(nv)] = rng.choice([5 * 10**9, 10**12, 3 * 10**8 + 1, 10**13])
         cases.append({'dims': dims, 'data': data, 'T': rng.choice([1.0, 77.0, 300.0, 650.0, 1000.0, 2000.0, rng.uniform(0.5, 2000)]),
-                      'thr': rng.choice([1e20, 1e7, 1.0, 0.2]), 'pre_call': rng.random() < 0.5})
+                      'thr': rng.choice([1e20, 1e7, 1.0, 0.2]), 'pre_call': rng.random() < 0.5, 'layout': rng.choice(['C', 'C', 'F', 'view'])})
     return cases
 
 
@@ -52,7 +52,13 @@ def impl(case):
     from gemdat.volume import Volume
     from scipy.constants import physical_constants
     lat = synth.make_lattice([[5, 0, 0], [0, 6, 0], [0, 0, 7]])
-    vol = Volume(data=np.array(case['data'], dtype=int).reshape(case['dims']), lattice=lat)
+    arr = np.array(case['data'], dtype=int).reshape(case['dims'])
+    # the same grid in another memory layout (Fortran order, or a transposed view): values by index are identical
+    if case.get('layout') == 'F':
+        arr = np.asfortranarray(arr)
+    elif case.get('layout') == 'view':
+        arr = np.ascontiguousarray(arr.transpose(2, 0, 1)).transpose(1, 2, 0)
+    vol = Volume(data=arr, lattice=lat)
     with np.errstate(divide='ignore'):
         fe = vol.get_free_energy(case['T'])
     if case.get('pre_call'):
@@ -165,7 +171,7 @@ def nontrivial(case, out):
 
 
 def classify(case, out):
-    return [f'thr={case["thr"]:g}', 'has-unvisited' if 0 in case['data'] else 'all-visited', 'wide-range' if max(case['data']) >= 10**8 else 'narrow-range', 'graph-after-other-graph-request' if case.get('pre_call') else 'first-graph-request']
+    return [f'thr={case["thr"]:g}', 'has-unvisited' if 0 in case['data'] else 'all-visited', 'wide-range' if max(case['data']) >= 10**8 else 'narrow-range', 'graph-after-other-graph-request' if case.get('pre_call') else 'first-graph-request', 'layout:' + case.get('layout', 'C')]
 
 
 def sample(case, out):
